@@ -16,6 +16,9 @@ void VH_FN(std::map<std::string, std::vector<fmm::Segment>>& out) {
     out["c09"].push_back(sch::c09OmpSegment<E>(VH_TSAN ? 4 : 8, VH_TSAN ? 40 : 300, VH_TSAN));
 #if !VH_TSAN
     out["c08"].push_back(sch::c08ExecSegment<E>(VH_PER ? 6 : 12, VH_PER ? 100 : 300));
+#if VH_PER
+    out["c10"].push_back(sch::c10OmpSegment<E>(10, 150));
+#endif
     out["c12"].push_back(sch::c12ExecSegment<E>(VH_PER ? 8 : 16, VH_PER ? 120 : 400));
 #endif
     out["c18"].push_back(sch::c18OmpSegment<E>(VH_TSAN ? 4 : 8, VH_TSAN ? 40 : 300, VH_TSAN));
